@@ -265,6 +265,7 @@ func (e *Exec) step(fn *ssa.Function, fc *FuncContract, st *State, ins ssa.Instr
 		}
 		e.mapInit(st, mt, ref)
 		e.set(st, x, Val{T: x.Type(), S: ref})
+		e.assumeWF(st, Val{T: x.Type(), S: ref})
 		return true, nil
 
 	case *ssa.MakeChan:
